@@ -75,7 +75,8 @@ def gen_cases(tier, rng):
     for i in range(nm):
         T = float(LADDER[i % len(LADDER)])
         cases.append({"cls": "molecule", "E": r3(rng.uniform(8000, 20000)), "omega": r3(rng.uniform(50, 800)), "hr": r3(rng.uniform(0.0, 1.5)),
-                      "n": [int(rng.integers(1, 5)), int(rng.integers(1, 5))], "T": T, "cost": 1})
+                      "n": [int(rng.integers(1, 5)), int(rng.integers(1, 5))], "T": T, "cost": 1,
+                      "mode2": ({"omega": r3(rng.uniform(40, 400)), "hr": r3(rng.uniform(0.0, 1.0)), "n": [int(rng.integers(2, 4)), int(rng.integers(1, 4))]} if i % 2 == 1 else None)})
     return cases
 
 
@@ -158,6 +159,14 @@ def run_case(case, ctx):
         md.set_nmax(0, case["n"][0])
         md.set_nmax(1, case["n"][1])
         md.set_HR(1, case["hr"])
+        if case.get("mode2"):
+            m2 = case["mode2"]
+            with qr.energy_units("1/cm"):
+                md2 = qr.Mode(m2["omega"])
+            mo.add_Mode(md2)
+            md2.set_nmax(0, m2["n"][0])
+            md2.set_nmax(1, m2["n"][1])
+            md2.set_HR(1, m2["hr"])
         T = case["T"]
         if T > 0:
             t = qr.TimeAxis(0.0, 100, 1.0)
@@ -176,6 +185,16 @@ def run_case(case, ctx):
             off = S.T @ d @ S - numpy.diag(pe)
             ctx.check("boltzmann-ratios", float(numpy.max(numpy.abs(off))), 1e-10, dict(det, what2="diagonal in the eigenbasis"))
             boltzmann_check(ctx, pe, w, T, det)
+        # the same state requested inside the eigenbasis context of the molecule's Hamiltonian (first thing done there): the same physical
+        # state, read after the context is left
+        with ctx.lib("Molecule.get_thermal_ReducedDensityMatrix inside eigenbasis_of(H)", mechanism=None):
+            with fp():
+                with qr.eigenbasis_of(H):
+                    rho_in = mo.get_thermal_ReducedDensityMatrix()
+            d_in = numpy.array(rho_in.data)
+        if validity(ctx, d_in, dict(det, where="inside eigenbasis_of(H)")):
+            ctx.check("inside==outside-context", float(numpy.max(numpy.abs(d_in - d))), 1e-10,
+                      dict(det, what="thermal state of a molecule requested inside eigenbasis_of(H) vs outside, both read outside", modes=2 if case.get("mode2") else 1))
         ctx.key(("molecule", tuple(case["n"]), T, case["omega"]))
         ctx.nontrivial(sum(case["n"]) >= 2)
         return
